@@ -65,7 +65,7 @@ package diff
 //@     && !(peersSet != nil && clStr(p) in peersSet && peersSet[clStr(p)])
 //@ func (*connsPair).updateNewOrLostFields
 //@   requires c != nil && (isFirst ==> (c.firstConn != nil && p2pOK(c.firstConn))) && (!isFirst ==> (c.secondConn != nil && p2pOK(c.secondConn)))
-//@   modifies *
+//@   modifies c.newOrLostSrc, c.newOrLostDst
 //@   ensures [C04] src: c.newOrLostSrc == (old(c.newOrLostSrc) || otherSetLacks(p2pSrc(if isFirst then old(c.firstConn) else old(c.secondConn)), peersSet))
 //@   ensures [C04] dst: c.newOrLostDst == (old(c.newOrLostDst) || otherSetLacks(p2pDst(if isFirst then old(c.firstConn) else old(c.secondConn)), peersSet))
 //@   ensures [C04] sides: c.firstConn == old(c.firstConn) && c.secondConn == old(c.secondConn) && c.diffType == old(c.diffType)
@@ -77,10 +77,33 @@ package diff
 // usable: a non-nil interface value that holds a non-nil *connectivityDiff
 //@ pred usableDiff(d ConnectivityDiff) = dyntype(d, *connectivityDiff) && unwrap(d, *connectivityDiff) != nil
 
+// classification (C04): an entry with only a ref1 side is "removed" (new/lost flags against the peers of ref2), one with only
+// a ref2 side is "added" (flags against the peers of ref1), one with both sides is "changed" or "unchanged" with no flag set;
+// every entry of the merged map is classified - whatever the order the map is ranged in (no early exit)
+//@ pred cdRemoved(l []*connsPair) = forall k int :: {l[k]} (0 <= k && k < len(l)) ==> (l[k].firstConn != nil && l[k].secondConn == nil && l[k].diffType == "removed")
+//@ pred cdAdded(l []*connsPair) = forall k int :: {l[k]} (0 <= k && k < len(l)) ==> (l[k].firstConn == nil && l[k].secondConn != nil && l[k].diffType == "added")
+//@ pred cdBoth(l []*connsPair) = forall k int :: {l[k]} (0 <= k && k < len(l)) ==> (l[k].firstConn != nil && l[k].secondConn != nil
+//@     && (l[k].diffType == "changed" || l[k].diffType == "unchanged"))
 //@ func diffConnectionsLists
 //@   nosafety
 //@   modifies *
 //@   ensures [C12] resultOrError: res1 == nil ==> usableDiff(res0)
+//@   ensures [C04] classes: res1 == nil ==> (cdRemoved(unwrap(res0, *connectivityDiff).removedConns) && cdAdded(unwrap(res0, *connectivityDiff).addedConns)
+//@         && cdBoth(unwrap(res0, *connectivityDiff).changedConns) && cdBoth(unwrap(res0, *connectivityDiff).unchangedConns))
+//@   after call 7:
+//@     assert [C04] lost: d.newOrLostSrc == (prev(d.newOrLostSrc) || otherSetLacks(p2pSrc(d.firstConn), peers2)) && d.newOrLostDst == (prev(d.newOrLostDst) || otherSetLacks(p2pDst(d.firstConn), peers2))
+//@   after call 8:
+//@     assert [C04] new: d.newOrLostSrc == (prev(d.newOrLostSrc) || otherSetLacks(p2pSrc(d.secondConn), peers1)) && d.newOrLostDst == (prev(d.newOrLostDst) || otherSetLacks(p2pDst(d.secondConn), peers1))
+//@   before return 2:
+//@     assert [C04,C08] visited: diffsMap != nil ==> (forall key string :: {key in diffsMap} key in diffsMap ==> seen(key))
+//@   loop 3:
+//@     invariant res: res != nil && fresh(res)
+//@     invariant classes: cdRemoved(res.removedConns) && cdAdded(res.addedConns) && cdBoth(res.changedConns) && cdBoth(res.unchangedConns)
+//@     invariant filed: forall key string :: {seen(key)} (seen(key) && diffsMap[key] != nil) ==> (
+//@            ((diffsMap[key].firstConn != nil && diffsMap[key].secondConn == nil) ==> (exists k int :: {res.removedConns[k]} 0 <= k && k < len(res.removedConns) && res.removedConns[k] == diffsMap[key]))
+//@         && ((diffsMap[key].firstConn == nil && diffsMap[key].secondConn != nil) ==> (exists k int :: {res.addedConns[k]} 0 <= k && k < len(res.addedConns) && res.addedConns[k] == diffsMap[key]))
+//@         && ((diffsMap[key].firstConn != nil && diffsMap[key].secondConn != nil) ==> ((exists k int :: {res.changedConns[k]} 0 <= k && k < len(res.changedConns) && res.changedConns[k] == diffsMap[key])
+//@                 || (exists k int :: {res.unchangedConns[k]} 0 <= k && k < len(res.unchangedConns) && res.unchangedConns[k] == diffsMap[key]))))
 
 //@ func (*DiffAnalyzer).computeDiffFromConnlistResults
 //@   nosafety
